@@ -29,6 +29,7 @@ func checkC14(c *Ctx) {
 	c.checkPauseBeforeStoreDelete()
 	c.checkEvictionDetachesAll()
 	c.checkCleanupOrder()
+	c.checkAtomicRMW()
 }
 
 // ---------------------------------------------------------------------------------------------
